@@ -80,8 +80,69 @@ func (c *allOfConstraintCompiler) extend(node ischema.Node, schemaNames []string
 		c.resolve(node, name)
 	}
 
+	// Likewise nothing is merged unless everything can be: a property that
+	// arrives twice, or differing additionalProperties, must not leave the node
+	// extended half-way.
+	c.ensureMergeable(node, schemaNames)
+
 	for _, name := range schemaNames {
 		c.extendWith(node, name)
+	}
+}
+
+// ensureMergeable goes through the merge extendWith is about to do, in the same
+// order and with the same errors, without changing the node.
+func (c *allOfConstraintCompiler) ensureMergeable(node ischema.Node, schemaNames []string) {
+	toObject, ok := node.(*ischema.ObjectNode)
+	if !ok {
+		return // reported by extendWith
+	}
+
+	var additionalProperties *constraint.AdditionalProperties
+	if ap := toObject.Constraint(constraint.AdditionalPropertiesConstraintType); ap != nil {
+		additionalProperties = ap.(*constraint.AdditionalProperties)
+	}
+
+	type keyID struct {
+		key        string
+		isShortcut bool
+	}
+	keys := make(map[keyID]struct{}, len(toObject.Children()))
+	for i := range toObject.Children() {
+		k := toObject.Key(i)
+		keys[keyID{k.Key, k.IsShortcut}] = struct{}{}
+	}
+
+	lex := node.BasisLexEventOfSchemaForNode()
+	for _, name := range schemaNames {
+		func() {
+			defer lexeme.CatchLexEventErrorWithIncorrectUserType(
+				lex,
+				lex.File().Name(),
+			)
+			fromObject, ok := c.processType(name).RootNode().(*ischema.ObjectNode)
+			if !ok {
+				return // reported by resolve
+			}
+
+			if ap := fromObject.Constraint(constraint.AdditionalPropertiesConstraintType); ap != nil {
+				ap := ap.(*constraint.AdditionalProperties)
+				if additionalProperties == nil {
+					additionalProperties = ap
+				} else if !ap.IsEqual(*additionalProperties) {
+					panic(errs.ErrConflictAdditionalProperties.F())
+				}
+			}
+
+			for i := range fromObject.Children() {
+				k := fromObject.Key(i)
+				id := keyID{k.Key, k.IsShortcut}
+				if _, ok := keys[id]; ok {
+					panic(errs.ErrDuplicateKeysInSchema.F(k.Key))
+				}
+				keys[id] = struct{}{}
+			}
+		}()
 	}
 }
 
